@@ -311,6 +311,8 @@ def run(c, facts):
     import c10
     c.run(r7_var_uniform, facts)
     c.run(r8_roots, facts)
+    import c02 as _c02
+    c.run(lambda c: _c02.r8_ref_transparent(c, facts, rule='C05.R11'))
     import lexrules
     c.run(lambda c: lexrules.block_comment_exact(c, facts, 'C05.R10'))
     c.run(r9_late_annotations, facts)
